@@ -82,3 +82,16 @@ def ascending_domain(draw, n, uniform=None, lo_gap=1e-3, hi_gap=1e2, start=None)
 def is_uniform(dom):
     d = np.diff(np.asarray(dom, dtype=float))
     return d.size == 0 or bool(np.allclose(d, d[0], rtol=1e-12, atol=0))
+
+
+def with_layout(a, kind):
+    """the same values in a different memory layout: 'C' (contiguous), 'F' (Fortran order, e.g. the transpose of a
+    channels x samples array or a pandas column block) or 'strided' (a view into a larger buffer)."""
+    a = np.asarray(a, dtype=float)
+    if a.ndim != 2 or kind in (None, "C"):
+        return np.ascontiguousarray(a)
+    if kind == "F":
+        return np.asfortranarray(a)
+    buf = np.zeros((a.shape[0] * 2, a.shape[1] * 2))
+    buf[::2, ::2] = a
+    return buf[::2, ::2]
